@@ -43,22 +43,67 @@ Definition run_passes_stmt : Prop := forall c os u hops,
     /\ (d = DFeedback -> Inv t next).
 
 (* ---- C06: bounded work ---- *)
-(* length of the run of redirect edges ending at each node equals its redirect counter, hence
-   no chain exceeds max_redirect *)
-Fixpoint redir_ok (c : cfg) (chain : N) (t : item) : bool :=
+(* First formulation (written before any proof attempt), kept for the record.  It identified a
+   redirect edge by the parent's status GotRedirected and measured the depth by
+   GetDepthWithoutRedirections, i.e. by statuses.  Both are FALSE for reachable trees: once a
+   redirect node is marked Completed (its target is done) while another branch of the same seed
+   is still being worked on, the status no longer tells that the edge below it was a redirect
+   (counter 1 below a Completed node; the former redirect node now counts as an asset level).
+   Smallest witness: seed -> assets {B, C}; B answers 301 -> B'; C has an asset C'; next pass B'
+   has no assets (so B', then B are Completed) while C' has an asset, so the seed is fed back with
+   B Completed above B' (nredir 1).  See [redir_ok_orig_refuted] / [depth_ok_orig_refuted] in
+   PassProofs.v.  This is a defect of the first statement, not of the Go code: the code evaluates
+   both quantities only on Archived nodes, all of whose ancestors are still GotRedirected /
+   GotChildren. *)
+Fixpoint redir_ok_orig (c : cfg) (chain : N) (t : item) : bool :=
   match t with
   | Node i cs =>
     (nredir i =? chain) && (nredir i <=? max_redirect c)
-    && forallb (fun k => redir_ok c (if status_eqb (nst i) GotRedirected then chain + 1 else 0) k) cs
+    && forallb (fun k => redir_ok_orig c (if status_eqb (nst i) GotRedirected then chain + 1 else 0) k) cs
   end.
-
-(* depth without redirections (+1) of every node is at most 4, i.e. assets at most 3 levels
-   below the page, when domains crawl is off *)
-Definition depth_ok (t : item) : bool :=
+Definition depth_ok_orig (t : item) : bool :=
   forallb (fun '(_, d) => Nat.leb d 4) (dwr_all t).
 
+(* Repaired formulation.  The redirect counter of the seed is 0; below a node that still is
+   GotRedirected the counter is the parent's + 1, below a node that still is GotChildren it is 0;
+   below a node that was completed in the meantime it is one of the two (the edge is a redirect
+   edge iff the child's counter is not 0 - assets are created with counter 0, redirect targets
+   with the parent's counter + 1 >= 1).  Hence the counter of every node is the length of the run
+   of redirect edges ending at it, and no run is longer than max_redirect. *)
+Fixpoint redir_ok (c : cfg) (par : option info) (t : item) : bool :=
+  match t with
+  | Node i cs =>
+    (nredir i <=? max_redirect c)
+    && match par with
+       | None => nredir i =? 0
+       | Some p => match nst p with
+                   | GotRedirected => nredir i =? nredir p + 1
+                   | GotChildren => nredir i =? 0
+                   | _ => (nredir i =? 0) || (nredir i =? nredir p + 1)
+                   end
+       end
+    && forallb (redir_ok c (Some i)) cs
+  end.
+
+(* asset depth = number of asset edges (edges into a node with counter 0) on the path from the
+   seed; [ad] is the value of this node.  At most [bound] everywhere. *)
+Fixpoint adepth_ok (bound ad : nat) (t : item) : bool :=
+  match t with
+  | Node i cs =>
+    Nat.leb ad bound
+    && forallb (fun k => adepth_ok bound (if nredir (inf k) =? 0 then S ad else ad) k) cs
+  end.
+
+(* the status-based depth of the code (GetDepthWithoutRedirections + 1) of every node that still
+   awaits fetching or post-processing is at most 4: nothing deeper than 3 asset levels is fetched *)
+Fixpoint pending_depth_ok (d : nat) (t : item) : bool :=   (* d = this node's value + 1 *)
+  match t with
+  | Node i cs => (negb (pending_st (nst i)) || Nat.leb d 4)
+                 && forallb (fun k => pending_depth_ok (dwr_child d k) k) cs
+  end.
+
 Definition InvB (c : cfg) (t : item) (next : N) : Prop :=
-  Inv t next /\ redir_ok c 0 t = true /\ (domains_crawl c = false -> depth_ok t = true).
+  Inv t next /\ redir_ok c None t = true /\ (domains_crawl c = false -> adepth_ok 3 0 t = true).
 
 Definition pass_preserves_bounds_stmt : Prop := forall c o t next t' next',
   InvB c t next -> pass c o (t, next) = Ok (t', next', DFeedback) -> InvB c t' next'.
@@ -69,3 +114,58 @@ Definition passes_bounded_stmt : Prop := forall c os u hops,
   domains_crawl c = false ->
   (length os > 4 * (N.to_nat (max_redirect c) + 1) + 1)%nat ->
   exists t next, run_passes c os (seed0 u hops) = Ok (t, next, DFinish).
+
+(* the exact bound: 4 * (max_redirect + 1) passes suffice (and are needed, see
+   [passes_bound_tight_example] in PassProofs.v) *)
+Definition passes_bounded_tight_stmt : Prop := forall c os u hops,
+  domains_crawl c = false ->
+  (length os >= 4 * (N.to_nat (max_redirect c) + 1))%nat ->
+  exists t next, run_passes c os (seed0 u hops) = Ok (t, next, DFinish).
+
+(* ---- stage boundaries of one pass ---- *)
+Definition wf (t : item) : Prop := NoDup (ids t) /\ check_consistency t = 0%nat.
+
+(* every stage of the pass runs without panic and hands a well-formed tree to the next one; the
+   finisher says Finish iff nothing in the tree it received is pending *)
+Definition pass_stages_stmt : Prop := forall c o t next,
+  Inv t next ->
+  exists t1 t2 t3 next' t4 d,
+    pre_worker o t = Ok t1 /\ arch_worker o t1 = Ok t2
+    /\ post_worker c o t2 next = Ok (t3, next') /\ fin_worker t3 = Ok (t4, d)
+    /\ pass c o (t, next) = Ok (t4, next', d)
+    /\ wf t1 /\ wf t2 /\ wf t3 /\ wf t4
+    /\ (d = DFinish <-> no_pending t3 = true)
+    /\ no_pending t4 = no_pending t3.
+
+(* C06 at the stage boundaries: no node that awaits fetching or post-processing lies deeper than
+   3 asset levels *)
+Definition pass_depth_stmt : Prop := forall c o t next t1 t2 t3 next',
+  InvB c t next -> domains_crawl c = false ->
+  pre_worker o t = Ok t1 -> arch_worker o t1 = Ok t2 -> post_worker c o t2 next = Ok (t3, next') ->
+  pending_depth_ok (dwr_seed t1) t1 = true /\ pending_depth_ok (dwr_seed t2) t2 = true
+  /\ pending_depth_ok (dwr_seed t3) t3 = true.
+
+(* ---- no URL is fetched twice within one seed's tree ---- *)
+(* (id, url) of the non-seed nodes the archiver is going to fetch in this pass *)
+Definition fetched (t : item) : list (N * N) :=
+  map (fun n => (id_of n, url_of n))
+      (filter (fun n => status_eqb (st_of n) PreProcessed) (nonseed_nodes t)).
+
+Fixpoint run_fetched (c : cfg) (os : list oracle) (st : item * N) : list (N * N) :=
+  match os with
+  | [] => []
+  | o :: r =>
+    match pre_worker o (fst st) with
+    | Ok t1 => fetched t1 ++ match pass c o st with
+                             | Ok (t, next, DFeedback) => run_fetched c r (t, next)
+                             | _ => []
+                             end
+    | Panic _ => []
+    end
+  end.
+
+(* over the whole life of a seed, whatever the oracles answer: no non-seed node is fetched twice
+   and no URL is fetched by two non-seed nodes *)
+Definition fetch_once_stmt : Prop := forall c os u hops,
+  NoDup (map fst (run_fetched c os (seed0 u hops)))
+  /\ NoDup (map snd (run_fetched c os (seed0 u hops))).
